@@ -180,7 +180,10 @@ func (env *Env) eval(x ast.Expr) Val {
 		case ArrayV:
 			i := e.toIdx(iv)
 			if b.E != nil {
-				env.fail("index of explicit array")
+				if c, ok := constVal(i); ok && c.IsInt64() && c.Int64() >= 0 && c.Int64() < int64(len(b.E)) {
+					return b.E[c.Int64()]
+				}
+				env.fail("index of explicit array (only constant indices)")
 			}
 			return Scalar{Select(b.A, i), b.Ty.Underlying().(*types.Array).Elem()}
 		case Scalar:
@@ -366,6 +369,10 @@ func (env *Env) ident(name string) Val {
 		if a := env.fr.cellByName(e, name, env.pos); a != nil {
 			if c := env.st.cells[a]; c != nil {
 				return c.V
+			}
+			// an escaping local lives in its own heap region: read it through its address
+			if pv, ok := env.fr.regs[a].(PtrV); ok && pv.Local == nil {
+				return env.pureLoad(pv)
 			}
 			isParam := false
 			for _, p := range fn.Params {
@@ -677,6 +684,30 @@ func (env *Env) callExpr(n *ast.CallExpr) Val {
 			body := sub.evalBool(n.Args[4])
 			rng := And(e.ar.idxLe(lo, qv), e.ar.idxLt(qv, hi))
 			return Scalar{Forall([]Term{qv}, Implies(rng, body), dynTerms(trig)), boolT}
+		case "forallV":
+			// forallV(v, like, trigger, body): v ranges over every value of the (scalar) type of `like`
+			if len(n.Args) != 4 {
+				env.fail("forallV(v, like, trigger, body) expects 4 arguments")
+			}
+			vn, ok := n.Args[0].(*ast.Ident)
+			if !ok {
+				env.fail("quantified variable must be an identifier")
+			}
+			like, ok := env.eval(n.Args[1]).(Scalar)
+			if !ok || like.Ty == nil {
+				env.fail("forallV: `like` must be a typed scalar expression")
+			}
+			qcounter++
+			qv := Term{fmt.Sprintf("%s!q%d", vn.Name, qcounter), like.T.Sort}
+			qval := Scalar{qv, like.Ty}
+			sub := env.with(vn.Name, qval)
+			sub.qdepth++
+			trig := sub.eval(n.Args[2])
+			body := sub.evalBool(n.Args[3])
+			// no range guard on v: in int mode the elements of a heap array are not known to lie in their type's
+			// range under a quantifier, and a guard would block exactly those instances; quantifying over more
+			// values only strengthens the clause
+			return Scalar{Forall([]Term{qv}, body, dynTerms(trig)), boolT}
 		case "mark":
 			// mark(x): always true; exists only to give quantifier instantiation a syntactic anchor
 			x := e.toIdx(env.typed(env.eval(n.Args[0]), intT))
@@ -775,6 +806,16 @@ func (env *Env) callExpr(n *ast.CallExpr) Val {
 				return Scalar{v.Rid, regT}
 			}
 			env.fail("rid() of non-reference")
+		case "ridof":
+			// ridof(x): the region holding the escaping local variable x itself (its address, not its value)
+			if id2, ok := n.Args[0].(*ast.Ident); ok && env.fr != nil {
+				if a := env.fr.cellByName(e, id2.Name, env.pos); a != nil {
+					if pv, ok := env.fr.regs[a].(PtrV); ok && pv.Local == nil {
+						return Scalar{pv.Rid, types.Typ[types.UnsafePointer]}
+					}
+				}
+			}
+			env.fail("ridof(x): x must be a local variable whose address is taken")
 		case "off":
 			switch v := env.eval(n.Args[0]).(type) {
 			case SliceV:
@@ -1218,6 +1259,18 @@ func (e *Engine) specInstance(sp *SpecFn) *specInst {
 	if sp.Opaque {
 		_, all := mkParams()
 		var sorts []Sort
+		// an uninterpreted function of a slice depends on the contents of the slice's region too
+		for pi, t := range inst.ptypes {
+			if sl, ok := t.Underlying().(*types.Slice); ok {
+				for _, slot := range e.slots(sl.Elem()) {
+					k := heapKey(sl.Elem(), slot.Path)
+					rs := SArr(e.ar.idxSort(), slot.Sort)
+					keySorts[k+"|"+e.ar.mode.String()] = SArr(e.rs(), rs)
+					inst.regions = append(inst.regions, specRegion{key: k, sort: rs, param: pi})
+					sorts = append(sorts, rs)
+				}
+			}
+		}
 		for _, t := range all {
 			sorts = append(sorts, t.Sort)
 		}
